@@ -31,6 +31,24 @@ theorem C01_deregistered_never_runs (ops : List Op) (m : ModId) (md : Mod)
 whatever a callback does, the library code continues from a consistent state -/
 theorem C01_consistent_at_every_callback_boundary (ops : List Op) : CfgOK Inv Mono (run {} ops) := reach_inv ops
 
+/-- **clause (a), for every history**: every state change the library ever performs — in any sequence of calls, from
+outside the loop or from inside start / stop / eval / event callbacks at any depth, whatever the callbacks return — is a
+documented edge: IDLE→RUNNING, RUNNING⇄PAUSED, RUNNING|PAUSED→STOPPED, STOPPED→RUNNING, anything→ZOMBIE (final; nothing
+leaves ZOMBIE), or no change; IDLE→STOPPED occurs only as the first half of a deregistration (`t.out`: the module was
+already taken out of its context's table; the stop hook runs, then the module becomes a ZOMBIE).
+`trans` is the ghost log `setState` appends to: the only place of the model where a module's state is assigned. -/
+theorem C01_every_transition_documented (ops : List Op) : ∀ t ∈ (run {} ops).st.trans, t.ok = true :=
+  (reach_inv ops).1.trans
+
+/-- what `ok` says, spelled out -/
+theorem C01_documented_edges (t : Trans) (h : t.ok = true) :
+    t.src = t.dst ∨ (t.src = .idle ∧ t.dst = .running) ∨ (t.src = .running ∧ t.dst = .paused) ∨ (t.src = .paused ∧ t.dst = .running) ∨
+    (t.src = .running ∧ t.dst = .stopped) ∨ (t.src = .paused ∧ t.dst = .stopped) ∨ (t.src = .stopped ∧ t.dst = .running) ∨
+    (t.src ≠ .zombie ∧ t.dst = .zombie) ∨ (t.src = .idle ∧ t.dst = .stopped ∧ t.out = true) := by
+  cases t with
+  | mk m src dst out =>
+    cases src <;> cases dst <;> simp [Trans.ok] at h ⊢ <;> exact h
+
 /-- clause (b), m_mod_start: in any state other than IDLE / STOPPED the call fails and changes nothing -/
 theorem C01_start_refused (s : St) (m : ModId) (md : Mod) (hm : s.mods[m]? = some md)
     (hs : md.state ≠ .idle ∧ md.state ≠ .stopped) : ∃ code : Int, code < 0 ∧ Refuses (apiStart m) s code := by
@@ -99,6 +117,7 @@ def demo : List Op :=
    .start 0, .start 1, .ret false, .ret true, .pause 0, .resume 0, .dereg 0, .start 0, .ret true]
 
 example : ((run {} demo).st.mods.map (·.state)) = [.zombie, .stopped] := by decide
+example : 5 ≤ (run {} demo).st.trans.length ∧ (run {} demo).st.trans.all (·.ok) = true := by decide
 example : ((run {} demo).st.ctx.map (·.running)) = some 0 := by decide
 example : (run {} (demo.take 5)).stack.length = 2 := by decide
 example : ((run {} (demo.take 9)).st.ctx.map (·.running)) = some 1 := by decide
